@@ -3,6 +3,6 @@ CONSTANTS
   Threads = {1, 2}
   MaxCalls = 2
   Hint = FALSE
-INVARIANTS OnlyValidBuilt SameQuestionSameAnswer ElementsAgree AnsweredIffInRange FiniteNeverRejected ShapeOk
+INVARIANTS OnlyValidBuilt SameQuestionSameAnswer ElementsAgree AnsweredIffInRange FiniteNeverRejected ShapeOk BadBufferNeverOk
 PROPERTY Immutable
 CHECK_DEADLOCK FALSE
